@@ -431,7 +431,7 @@ def _seq_worker(item):
 
 
 def run(rec, tier, seed):
-    plan = {'quick': {'bin': 3, 'ter': 2, 'neg': 2}, 'thorough': {'bin': 4, 'ter': 4, 'neg': 3}}[tier]
+    plan = {'quick': {'bin': 3, 'ter': 2, 'neg': 2}, 'thorough': {'bin': 5, 'ter': 4, 'neg': 4}}[tier]
     fix = True
     for sysname in ('bin', 'ter', 'neg'):
         fix = bfs(rec, sysname) and fix
